@@ -59,6 +59,10 @@ def queries(tier):
     for t in ([0, 59, 60, 75, 91, 92, 94, 96] if tier == "quick" else range(0, 97)):
         qs.append(Query("clm_trunc%03d" % t, "C17_lookup.cpp", "h_clm_hostile", {"CTRUNC": t}, unwind=200, vfs_n=6, vfs_cap=160, timeout=600, exc="full", max_alloc=4096,
                         desc="CLM image truncated to %d of 97 bytes" % t))
+    # ---- the LZH extraction path reads member bytes through the bit reader (C04's induction) and WAV intake reads the format chunk (C03's 40-byte layout)
+    from props import C04, C03
+    qs += [q for q in C04.queries(tier) if q.name == "bitreader_step"]
+    qs += [q for q in C03.queries(tier) if q.name == "roundtrip_one_fmt40"]
     # ---- WAV intake of CLM creation
     qs.append(Query("wav_find_chunk_kernel", "C03_clm.cpp", "h_find_chunk", {}, unwind=120, timeout=600,
                     desc="ClmFile::FindChunk over a reader of symbolic length <= 64 whose chunk headers are arbitrary: ends within length/8 + 1 header reads, with the chunk inside the file or an error"))
